@@ -25,14 +25,14 @@ theorem scanStarComment_cons (start : Nat) (c : Char) (cs acc : List Char) (line
 /-- Concrete scan result vs abstract scan result. -/
 def ScanRel {α : Type} : CScan α → Scan α → Prop
   | .ok v l s, .ok v' l' r => v = v' ∧ l = l' ∧ s.view = r ∧ s.Inv
-  | .err e l, .err e' l' => e = e' ∧ l = l'
+  | .err e l _, .err e' l' => e = e' ∧ l = l'
   | _, _ => False
 
 theorem ScanRel.ok_iff {α : Type} (v v' : α) (l l' : Nat) (s : Src) (r : List Char) :
     ScanRel (.ok v l s) (.ok v' l' r) ↔ (v = v' ∧ l = l' ∧ s.view = r ∧ s.Inv) := Iff.rfl
 
-theorem ScanRel.err_iff {α : Type} (e e' : Err) (l l' : Nat) :
-    ScanRel (α := α) (.err e l) (.err e' l') ↔ (e = e' ∧ l = l') := Iff.rfl
+theorem ScanRel.err_iff {α : Type} (e e' : Err) (l l' : Nat) (s : Src) :
+    ScanRel (α := α) (.err e l s) (.err e' l') ↔ (e = e' ∧ l = l') := Iff.rfl
 
 theorem scanBracket_refine (f : Nat) (s : Src) (acc : List Char) (line : Nat) (h : s.Inv)
     (hf : s.view.length < f) :
